@@ -457,3 +457,151 @@ Section Whole.
       destruct (q_dim (shape sid) =? 2); reflexivity.
   Qed.
 End Whole.
+
+(** * CrossingEdgeQuery: filtering a sorted duplicate-free superset of the crossing edges gives
+      exactly the brute-force answer *)
+Lemma increasing_head_lt x l : increasing (x :: l) -> forall y, In y l -> x < y.
+Proof.
+  revert x. induction l as [|z t IH]; intros x H y Hy; [contradiction|].
+  cbn in H. destruct H as (Hxz & Ht). destruct Hy as [<-|Hy]; [assumption|].
+  specialize (IH z Ht y Hy). lia.
+Qed.
+
+Lemma increasing_tail x l : increasing (x :: l) -> increasing l.
+Proof. cbn. tauto. Qed.
+
+Lemma increasing_ext l1 : forall l2, increasing l1 -> increasing l2 -> (forall x, In x l1 <-> In x l2) -> l1 = l2.
+Proof.
+  induction l1 as [|a t1 IH]; intros [|b t2] H1 H2 Hext.
+  - reflexivity.
+  - exfalso. apply (proj2 (Hext b)). left; reflexivity.
+  - exfalso. apply (proj1 (Hext a)). left; reflexivity.
+  - pose proof (increasing_head_lt a t1 H1) as Ha. pose proof (increasing_head_lt b t2 H2) as Hb.
+    assert (a = b) as Hab.
+    { destruct (proj1 (Hext a) (or_introl eq_refl)) as [E|Hin]; [symmetry; exact E|].
+      destruct (proj2 (Hext b) (or_introl eq_refl)) as [E|Hin2]; [exact E|].
+      specialize (Ha b Hin2). specialize (Hb a Hin). lia. }
+    subst b.
+    f_equal. apply IH; [eapply increasing_tail; eassumption|eapply increasing_tail; eassumption|].
+    intros x. split; intros Hx.
+    + destruct (proj1 (Hext x) (or_intror Hx)) as [E|]; [|assumption]. subst x. specialize (Ha a Hx). lia.
+    + destruct (proj2 (Hext x) (or_intror Hx)) as [E|]; [|assumption]. subst x. specialize (Hb a Hx). lia.
+Qed.
+
+Lemma increasing_cons_intro x l : (forall y, In y l -> x < y) -> increasing l -> increasing (x :: l).
+Proof. intros H Hl. cbn. split; [|assumption]. destruct l; [trivial|]. apply H. left; reflexivity. Qed.
+
+Lemma increasing_filter f l : increasing l -> increasing (filter f l).
+Proof.
+  induction l as [|x t IH]; intros H; [exact I|].
+  pose proof (increasing_head_lt x t H) as Hx. specialize (IH (increasing_tail x t H)).
+  cbn [filter]. destruct (f x); [|assumption].
+  apply increasing_cons_intro; [|assumption]. intros y Hy. apply filter_In in Hy. apply Hx. tauto.
+Qed.
+
+Lemma insert_uniq_In x l y : In y (insert_uniq x l) <-> y = x \/ In y l.
+Proof.
+  induction l as [|z t IH]; cbn [insert_uniq].
+  - cbn. intuition.
+  - destruct (x <? z) eqn:E1; [cbn; intuition|]. destruct (x =? z) eqn:E2.
+    + apply Z.eqb_eq in E2. subst z. cbn. intuition.
+    + cbn [In]. rewrite IH. intuition.
+Qed.
+
+Lemma insert_uniq_increasing x l : increasing l -> increasing (insert_uniq x l).
+Proof.
+  induction l as [|z t IH]; intros H; [cbn; auto|].
+  pose proof (increasing_head_lt z t H) as Hz. cbn [insert_uniq].
+  destruct (x <? z) eqn:E1.
+  - apply Z.ltb_lt in E1. apply increasing_cons_intro; [|assumption].
+    intros y [<-|Hy]; [assumption|]. specialize (Hz y Hy). lia.
+  - apply Z.ltb_ge in E1. destruct (x =? z) eqn:E2; [assumption|]. apply Z.eqb_neq in E2.
+    apply increasing_cons_intro; [|apply IH; eapply increasing_tail; eassumption].
+    intros y Hy. apply insert_uniq_In in Hy as [->|Hy]; [lia|apply Hz; assumption].
+Qed.
+
+Lemma unique_ints_increasing l : increasing (unique_ints l).
+Proof. induction l; cbn; [exact I|apply insert_uniq_increasing; assumption]. Qed.
+
+Lemma unique_ints_In l y : In y (unique_ints l) <-> In y l.
+Proof. induction l as [|x t IH]; cbn; [tauto|]. rewrite insert_uniq_In, IH. intuition. Qed.
+
+Lemma zrange_up_increasing lo hi : increasing (zrange_up lo hi).
+Proof.
+  unfold zrange_up. generalize (Z.to_nat (hi - lo)) as n. intros n.
+  assert (forall s, increasing (map (fun k : nat => lo + Z.of_nat k) (seq s n))) as H.
+  { induction n as [|n IH]; intros s; [exact I|]. cbn [seq map].
+    apply increasing_cons_intro; [|apply IH].
+    intros y Hy. apply in_map_iff in Hy as (k & <- & Hk). apply in_seq in Hk. lia. }
+  apply H.
+Qed.
+
+Lemma zrange_up_In lo hi y : In y (zrange_up lo hi) <-> lo <= y < hi.
+Proof.
+  unfold zrange_up. rewrite in_map_iff. split.
+  - intros (k & <- & Hk). apply in_seq in Hk. lia.
+  - intros Hy. exists (Z.to_nat (y - lo)). split; [lia|]. apply in_seq. lia.
+Qed.
+
+Section Crossings.
+  Variable point : Type.
+  Variable crossing_sign : point -> point -> point -> point -> crossing.
+  Notation crossings := (crossings point crossing_sign).
+  Notation brute_crossings := (brute_crossings point crossing_sign).
+
+  (** does edge [e] of [s] pass the filter of Crossings(a, b, s, crossType)? *)
+  Definition crosses (all : bool) (s : qshape point) (a b : point) (e : Z) : bool :=
+    match nth_error (q_edges s) (Z.to_nat e) with
+    | Some (v0, v1) => keep_crossing all (crossing_sign a b v0 v1)
+    | None => false
+    end.
+
+  (** the candidates are increasing (one cell: the cell's edge list; several: uniqueInts), lie in
+      range, and contain every edge that passes the filter (completeness of the index plus H-CLIP
+      for the query edge's own descent) *)
+  Theorem crossings_eq_brute all (s : qshape point) a b cands :
+    increasing cands ->
+    (forall e, In e cands -> 0 <= e < lenZ (q_edges s)) ->
+    (forall e, 0 <= e < lenZ (q_edges s) -> crosses all s a b e = true -> In e cands) ->
+    crossings all s a b cands = brute_crossings all s a b.
+  Proof.
+    intros Hinc Hrange Hsup. unfold Index.brute_crossings, Index.crossings.
+    fold (crosses all s a b).
+    apply increasing_ext.
+    - apply increasing_filter; assumption.
+    - apply increasing_filter, zrange_up_increasing.
+    - intros e. rewrite !filter_In, zrange_up_In. split.
+      + intros (Hin & Hc). split; [apply Hrange; assumption|assumption].
+      + intros (Hr & Hc). split; [apply Hsup; assumption|assumption].
+  Qed.
+
+  (** the gathering step always produces an increasing list when the cells' lists are *)
+  Theorem crossing_candidates_increasing (idx : index) visited sid :
+    (forall pos cl, In pos visited -> find_by_shape (snd (nth_cell idx pos)) sid = Some cl -> increasing (cl_edges cl)) ->
+    increasing (crossing_candidates idx visited sid).
+  Proof.
+    intros Hinc. unfold crossing_candidates.
+    destruct (1 <? lenZ visited) eqn:E; [apply unique_ints_increasing|].
+    apply Z.ltb_ge in E. unfold lenZ in E.
+    destruct visited as [|pos [|pos2 t]]; [exact I| |cbn [length] in E; lia].
+    cbn [flat_map]. rewrite app_nil_r.
+    destruct (find_by_shape (snd (nth_cell idx pos)) sid) as [cl|] eqn:Ef; [|exact I].
+    apply (Hinc pos cl); [left; reflexivity|assumption].
+  Qed.
+
+  (** and it is exactly the union of the visited cells' lists *)
+  Theorem crossing_candidates_In (idx : index) visited sid e :
+    In e (crossing_candidates idx visited sid) <->
+    exists pos cl, In pos visited /\ find_by_shape (snd (nth_cell idx pos)) sid = Some cl /\ In e (cl_edges cl).
+  Proof.
+    unfold crossing_candidates.
+    assert (In e (flat_map (fun pos => match find_by_shape (snd (nth_cell idx pos)) sid with
+                                       | Some cl => cl_edges cl | None => [] end) visited) <->
+            exists pos cl, In pos visited /\ find_by_shape (snd (nth_cell idx pos)) sid = Some cl /\ In e (cl_edges cl)) as H.
+    { rewrite in_flat_map. split.
+      - intros (pos & Hp & He). destruct (find_by_shape (snd (nth_cell idx pos)) sid) as [cl|] eqn:Ef; [|contradiction].
+        exists pos, cl. auto.
+      - intros (pos & cl & Hp & Ef & He). exists pos. rewrite Ef. auto. }
+    destruct (1 <? lenZ visited); [rewrite unique_ints_In|]; exact H.
+  Qed.
+End Crossings.
